@@ -3,7 +3,7 @@ from fractions import Fraction
 import numpy as np
 import gen
 import spec
-from props.common import load_impl, exc_name, conj_prov
+from props.common import load_impl, exc_name, conj_prov, rand_keys
 from props.c01 import additive_utility
 
 RULE = ("end-to-end ShapleyImportance('neighbor', nn_k=K).fit().score() and compute_shapley_add on random conjunctive provenance hypergraphs (1-5 units quick / "
@@ -64,9 +64,12 @@ def run(ctx):
             ureq = {"utility": "custom", "util": U, "nulls": nl}
             Um = [[Fraction(x) for x in row] for row in U]
             nlv = [Fraction(x) for x in nl]
-        prov, _, _ = conj_prov(I, rows, n_units)
+        # unit identifiers: positions, or (2 cases in 5) shuffled / gapped integers, strings, tuples - declared up front or registered in that order on an
+        # open unit set; slot i of the result belongs to the unit at POSITION i whatever it is called
+        ukeys, kscheme = (rand_keys(rng, n_units) if it % 5 in (1, 3) else (list(range(n_units)), "positional"))
+        prov, _, _ = conj_prov(I, rows, n_units, keys=(None if kscheme == "positional" else ukeys), lazy=(kscheme != "positional" and it % 2 == 1))
         exprs = [{"conj": [[u, 1] for u in r]} if len(r) > 1 else {"eq": [r[0], 1]} for r in rows]
-        case = dict(nUnits=n_units, rows=rows, y_train=y_train, y_test=y_test, dist=dist.tolist(), K=K, **ureq)
+        case = dict(nUnits=n_units, rows=rows, y_train=y_train, y_test=y_test, dist=dist.tolist(), K=K, unitKeys=[str(k) for k in ukeys], **ureq)
         X = np.arange(n_rows, dtype=float).reshape(-1, 1)
         Xv = np.arange(m, dtype=float).reshape(-1, 1)
         try:
@@ -85,7 +88,7 @@ def run(ctx):
         ans = ctx.model({"op": "neighbor", "prov": {"nUnits": n_units, "exprs": exprs}, "simple": False, "yTrain": y_train, "yTest": y_test,
                          "dist": [[str(Fraction(x)) for x in row] for row in dist.tolist()], "K": K, **ureq})
         nontriv = n_units >= 2 and (maxw >= 2 or K >= 2) and len(set(want)) > 1
-        ctx.case(case, nontrivial=nontriv, sample=case, units=n_units, K=K, maxw=maxw, util=ukind, hub=hub)
+        ctx.case(case, nontrivial=nontriv, sample=case, units=n_units, K=K, maxw=maxw, util=ukind, hub=hub, unit_keys=kscheme)
         ctx.maxi(units=n_units, rows=n_rows, K=K)
         if isinstance(res, str):
             tag = "F3b-single-unit-addpath" if (n_units == 1 and res.startswith("IndexError")) else None
